@@ -1,11 +1,14 @@
 #!/bin/bash
-# try_seed.sh <Cxx> <patch.diff> [tier]: apply a seeded change to /repo, run the check, undo the change.
+# try_seed.sh <Cxx> <patch.diff> [tier]: apply a seeded change to the repository, run the check, undo the change.
+# The repository is /repo unless O2P_REPO names a scratch worktree of it; the checks run from VERIF_DIR (default /verif)
+# — with both set, several seeds can be tried side by side without touching /repo.
 set -u
 prop=$1; patch=$2; tier=${3:-quick}
-cd /repo || exit 2
-if [ -n "$(git status --porcelain)" ]; then echo "/repo not clean"; exit 2; fi
+repo=${O2P_REPO:-/repo}; verif=${VERIF_DIR:-/verif}
+cd "$repo" || exit 2
+if [ -n "$(git status --porcelain)" ]; then echo "$repo not clean"; exit 2; fi
 git apply "$patch" || { echo "patch does not apply"; exit 2; }
-cd /verif && /venv/bin/python harness/check.py "$prop" --tier "$tier" 2>&1 | grep -v "conda.cli" | tail -${LINES_OUT:-8}
+cd "$verif" && /venv/bin/python harness/check.py "$prop" --tier "$tier" 2>&1 | grep -v "conda.cli" | tail -${LINES_OUT:-8}
 rc=${PIPESTATUS[0]}
-git -C /repo checkout -- . && git -C /repo clean -fdq
+git -C "$repo" checkout -- . && git -C "$repo" clean -fdq
 echo "exit=$rc"
